@@ -243,6 +243,18 @@ func (e BridgeEngine) genKind(r *Run, kind string) (Step, bool) {
 		if r.Prop == "C03" && r.Pct(60) {
 			to = RecorderAddr(w)
 		}
+		if r.Prop == "C01" && r.Pct(50) {
+			// re-entrancy: the call goes (memo = send-call-to) to the forwarder contract with call data
+			// executeClaim(chain, <the nonce this very event will get>)
+			act := PAct{K: "pre", T: "crosschain", M: "executeClaim", Args: []string{c.Name, fmt.Sprint(c.Ext.EventNonce + 1)}}
+			if _, data, err := resolveAct(&act, func(s string) string { return s }); err == nil {
+				r.Probe("reentrant-bridge-call-emitted")
+				// arm the forwarder (1 unit of FX) first; the event follows as the next step
+				st.Setup = append(st.Setup, Step{Kind: "ext", A: A("chain", c.Name, "op", "bridge_call", "symbols", strings.Join(syms, ","), "amounts", strings.Join(amts, ","), "user", r.Rng.IntN(st.NUsers), "to", RecorderAddr(w).Hex(),
+					"data", hex.EncodeToString(data), "memo", "0000000000000000000000000000000000000000000000000000000000010000", "value", 0)})
+				return Step{Kind: "block", DtMs: e.dt(r), N: 1, Txs: []Tx{{K: "eth_call", S: KeyName("user", r.Rng.IntN(st.NUsers)), A: A("to", RecorderAddr(w).Hex(), "data", "", "value", "1"), Gas: 200_000}}}, true
+			}
+		}
 		return Step{Kind: "ext", A: A("chain", c.Name, "op", "bridge_call", "symbols", strings.Join(syms, ","), "amounts", strings.Join(amts, ","), "user", r.Rng.IntN(st.NUsers), "to", to.Hex(),
 			"data", []string{"", "", "00", "1234"}[r.Rng.IntN(4)], "memo", []string{"", "", "00", "0011"}[r.Rng.IntN(4)], "value", []int{0, 0, 100, 1000, 12}[r.Rng.IntN(5)])}, true
 	case "ext-height":
@@ -261,6 +273,14 @@ func (e BridgeEngine) genKind(r *Run, kind string) (Step, bool) {
 	case "churn":
 		return e.genChurn(r, c, v)
 	case "gov":
+		if r.Pct(20) {
+			// governance adds / removes spare aliases of the bridged coin (the bank metadata is rewritten)
+			return Step{Kind: "gov", DtMs: e.dt(r), A: A("what", "alias", "denom", "usdt", "alias", fmt.Sprintf("simalias%d", r.Rng.IntN(3)))}, true
+		}
+		if r.Prop == "C07" && r.Pct(25) {
+			// governance lowers the stake threshold below one whole FX: oracles whose bridge power is zero become possible
+			return Step{Kind: "gov", DtMs: e.dt(r), A: A("what", "update_params", "chain", c.Name, "delegate_threshold_raw", []string{"300000000000000000", "1", "999999999999999999"}[r.Rng.IntN(3)])}, true
+		}
 		if r.Pct(50) {
 			return Step{Kind: "gov", DtMs: e.dt(r), A: A("what", "update_params", "chain", c.Name, "signed_window", 2+r.Rng.IntN(40))}, true
 		}
@@ -411,8 +431,15 @@ func (e BridgeEngine) genClaims(r *Run, c *ChainSt, v *ChainView) []Tx {
 	for i, oa := range c.Oracles {
 		ob := c.oracleKey(w, i).Bech()
 		or, ok := v.Oracles[ob]
-		if !ok || !or.Online {
+		if !ok {
 			continue
+		}
+		if !or.Online {
+			// an oracle that is offline (slashed, or removed by governance) still tries to vote now and then
+			if !(r.Cfg.FaultOn("offline-claims") && r.Pct(30)) {
+				continue
+			}
+			r.Fault("offline-claims")
 		}
 		if oa.CrashClaims {
 			continue
@@ -445,6 +472,17 @@ func (e BridgeEngine) genClaims(r *Run, c *ChainSt, v *ChainView) []Tx {
 				if f, val := e.variantFor(r, c, ev); f != "" {
 					t.A["variant"], t.A["vval"] = f, val
 					r.Fault("conflicting-claim")
+				}
+			}
+			if r.Cfg.FaultOn("minority-liar") && ev != nil && r.Pct(60) && t.A["variant"] == "" {
+				// one designated oracle holding well under a third of the power reports a far too high external
+				// height for a real event: with an honest majority nothing it says may ever be observed
+				ob := c.oracleKey(w, i).Bech()
+				if or, ok := v.Oracles[ob]; ok && or.Online && (c.Liar == "" || c.Liar == ob) && v.TotalPower.IsPositive() &&
+					or.GetPower().MulRaw(100).LT(v.TotalPower.MulRaw(33)) {
+					c.Liar = ob
+					t.A["variant"], t.A["vval"] = "set:BlockHeight", fmt.Sprint(ev.Height+uint64([]int{1, 1000, 2_000_000}[r.Rng.IntN(3)])+uint64(r.Rng.IntN(1000)))
+					r.Fault("minority-liar")
 				}
 			}
 			if r.Cfg.FaultOn("dup-bytes") && r.Pct(5) {
@@ -556,6 +594,21 @@ func (e BridgeEngine) variantFor(r *Run, c *ChainSt, ev *ExtEvent) (string, stri
 			return "resplit", ok[r.Rng.IntN(len(ok))]
 		}
 	}
+	if r.Pct(25) {
+		// structural variants: other letter case of a string, first two elements of a list exchanged
+		var ok []string
+		for _, f := range fields {
+			for _, kind := range []string{"case:", "swap:"} {
+				cl := c.buildClaim(w, ev, c.bridgerKey(w, 0).Bech(), "")
+				if mutateClaim(cl, kind+f, "") == nil && safeValidate(cl) == nil {
+					ok = append(ok, kind+f)
+				}
+			}
+		}
+		if len(ok) > 0 {
+			return ok[r.Rng.IntN(len(ok))], "-"
+		}
+	}
 	otherAddr := ExtAddrStr(c.Name, w.Key("extuser", 50+r.Rng.IntN(5)).Hex())
 	cands := []string{otherAddr, w.Key("adv", 0).Bech(), "0000000000000000000000000000000000000000000000000000000000010000", "00", hex.EncodeToString([]byte("erc20")), "X", "FX"}
 	for try := 0; try < 6; try++ {
@@ -642,7 +695,7 @@ func (e BridgeEngine) genConfirms(r *Run, c *ChainSt, v *ChainView, max int) []T
 			}
 		}
 		if r.Cfg.FaultOn("dup-msg") && n > 0 && r.Pct(10) {
-			txs = append(txs, Tx{K: "confirm", S: signer, A: copyArgs(txs[len(txs)-1].A)})
+			txs = append(txs, Tx{K: "confirm", S: txs[len(txs)-1].S, A: copyArgs(txs[len(txs)-1].A)})
 			r.Fault("dup-msg")
 		}
 	}
@@ -653,7 +706,29 @@ func (e BridgeEngine) corruptConfirm(r *Run, c *ChainSt, t *Tx) {
 	w := r.W
 	r.Fault("bad-signature")
 	other := (t.A.Int("o") + 1) % len(c.Oracles)
-	switch r.Rng.IntN(8) {
+	switch r.Rng.IntN(10) {
+	case 9:
+		// somebody else submits the oracle's correctly signed confirmation in the direct message, naming
+		// itself as bridger (the signature is public once the oracle has produced it)
+		t.A["direct"] = "1"
+		t.S = KeyName("adv", r.Rng.IntN(2))
+		if r.Pct(40) {
+			t.S = KeyName("bridger", c.bridgerKey(w, other).Idx)
+		}
+		t.A["inner"] = t.S
+		t.A["foreigndirect"] = "1"
+	case 8:
+		// somebody else submits the oracle's (correctly signed) confirmation inside the generic wrapper
+		if !t.A.Has("inner") {
+			t.A["inner"] = t.S
+		}
+		delete(t.A, "direct")
+		t.A["wrapby"] = "1"
+		if r.Pct(50) {
+			t.S = KeyName("adv", r.Rng.IntN(2))
+		} else {
+			t.S = KeyName("bridger", c.bridgerKey(w, other).Idx)
+		}
 	case 0:
 		t.A["signkey"] = KeyName("ext", c.extKey(w, other).Idx) // wrong key
 	case 1:
@@ -842,6 +917,14 @@ func (e BridgeEngine) genChurn(r *Run, c *ChainSt, v *ChainView) (Step, bool) {
 		}
 		if r.Pct(10) {
 			amt = FX(thr * c.Cfg.DelegateMultiple).AddRaw(1)
+		}
+		if one := sdkmath.NewInt(1_000_000_000_000_000_000); v.Params.DelegateThreshold.Amount.LT(one) && r.Pct(60) {
+			// a stake between the (lowered) threshold and one whole FX: bridge power zero
+			amt = v.Params.DelegateThreshold.Amount.AddRaw(int64(r.Rng.IntN(1000)))
+			if !amt.LT(one) {
+				amt = one.SubRaw(1)
+			}
+			r.Probe("bond-with-zero-power-stake")
 		}
 		a := A("chain", c.Name, "o", i, "amount", amt.String(), "val", r.Rng.IntN(r.Cfg.World.Validators))
 		if r.Pct(10) { // try to reuse somebody else's bridger / external address
